@@ -261,3 +261,262 @@ Proof.
   destruct (_ <=? _) eqn:E1; [|destruct (_ <? _); discriminate].
   unfold cur_tokens, next_slot in *. nia.
 Qed.
+
+(** ** Timeout 0 (MQTT limiters): admission iff the current period has room; never a wait *)
+Lemma acquire_T0 p s el c :
+  valid p -> pT p = 0 -> 0 <= el ->
+  let cycle := el / pP p in
+  let tokens := cur_tokens p s cycle in
+  acquire p s el c =
+    if tokens <? pL p then ({| cyc := cycle; tok := tokens + c |}, Permit 0) else (s, Reject 0).
+Proof.
+  intros Hv HT0 Hel cycle tokens. pose proof Hv as (HP & HL & HT).
+  rewrite acquire_spec by assumption. cbv zeta. fold cycle. fold tokens.
+  rewrite HT0. rewrite Z.div_0_l by lia. rewrite Z.add_0_l, Z.mul_1_r.
+  destruct (pL p <=? tokens) eqn:E1; destruct (tokens <? pL p) eqn:E2; try reflexivity; lia.
+Qed.
+
+(** history of a timeout-0 limiter with arbitrary non-negative counts (bytes):
+    [hist] = (period, count) of every admitted arrival, newest first *)
+Fixpoint run_hist (p : policy) (s : rl) (ops : list (Z * Z)) (hist : list (Z * Z)) : rl * list (Z * Z) :=
+  match ops with
+  | [] => (s, hist)
+  | (el, c) :: t =>
+      match acquire p s el c with
+      | (s', Permit _) => run_hist p s' t ((el / pP p, c) :: hist)
+      | (s', _) => run_hist p s' t hist
+      end
+  end.
+
+Definition sum_in (k : Z) (hist : list (Z * Z)) : Z :=
+  fold_right (fun '(k', c) a => if k' =? k then c + a else a) 0 hist.
+
+Fixpoint nondecr_ops (lo : Z) (ops : list (Z * Z)) : Prop :=
+  match ops with
+  | [] => True
+  | (el, c) :: t => lo <= el /\ 0 <= c /\ nondecr_ops el t
+  end.
+
+Definition acct (p : policy) (s : rl) (hist : list (Z * Z)) : Prop :=
+  (forall k c, In (k, c) hist -> k <= cyc s) /\ sum_in (cyc s) hist <= tok s /\ 0 <= tok s.
+
+Lemma sum_in_zero k hist : (forall k' c, In (k', c) hist -> k' < k) -> sum_in k hist = 0.
+Proof.
+  induction hist as [|[k' c] t IH]; intros H; cbn [sum_in fold_right]; [reflexivity|].
+  fold (sum_in k t). pose proof (H k' c (or_introl eq_refl)).
+  destruct (k' =? k) eqn:E; [lia|]. apply IH. intros k2 c2 Hin. apply (H k2 c2). right; exact Hin.
+Qed.
+
+(** what the current period has already admitted is bounded by the tokens counted against it *)
+Lemma acct_sum_le_tokens p s hist cycle :
+  valid p -> acct p s hist -> cyc s <= cycle -> sum_in cycle hist <= cur_tokens p s cycle.
+Proof.
+  intros (HP & HL & HT) (Ha & Hb & Hc) Hle. unfold cur_tokens.
+  destruct (Z.eq_dec cycle (cyc s)) as [->|Hne].
+  - lia.
+  - rewrite sum_in_zero; [lia|]. intros k' c Hin. specialize (Ha k' c Hin). lia.
+Qed.
+
+Lemma acct_step p s hist el c s' w :
+  valid p -> pT p = 0 -> 0 <= el -> 0 <= c -> inv p s el -> acct p s hist ->
+  acquire p s el c = (s', Permit w) ->
+  sum_in (el / pP p) hist < pL p /\ acct p s' ((el / pP p, c) :: hist) /\ inv p s' el.
+Proof.
+  intros Hv HT0 Hel Hc0 (Hi1 & Hi2) Hacct E.
+  pose proof (acct_sum_le_tokens p s hist (el / pP p) Hv Hacct Hi1) as Hsum.
+  rewrite acquire_T0 in E by assumption. cbv zeta in E.
+  destruct (_ <? _) eqn:E1; [|discriminate]. inversion E; subst; clear E.
+  split; [lia|]. destruct Hacct as (Ha & Hb & Hc). split.
+  - unfold acct; cbn [cyc tok]. split; [|split].
+    + intros k c' [Heq|Hin]; [inversion Heq; lia|]. specialize (Ha k c' Hin). lia.
+    + cbn [sum_in fold_right]. fold (sum_in (el / pP p) hist). rewrite Z.eqb_refl. lia.
+    + pose proof (cur_tokens_nonneg p s (el / pP p)). lia.
+  - unfold inv; cbn [cyc tok]. pose proof (cur_tokens_nonneg p s (el / pP p)). lia.
+Qed.
+
+Lemma acquire_T0_reject_keeps p s el c s' o :
+  valid p -> pT p = 0 -> 0 <= el -> acquire p s el c = (s', o) ->
+  (exists w, o = Permit w) \/ s' = s.
+Proof.
+  intros Hv HT0 Hel E. rewrite acquire_T0 in E by assumption. cbv zeta in E.
+  destruct (_ <? _); inversion E; subst; [left; eexists; reflexivity | right; reflexivity].
+Qed.
+
+(** every admitted packet found strictly less than L bytes (or packets) already admitted in its period *)
+Definition hist_ok (p : policy) (hist : list (Z * Z)) : Prop :=
+  forall pre k c post, hist = pre ++ (k, c) :: post -> sum_in k post < pL p.
+
+Lemma run_hist_ok p : valid p -> pT p = 0 -> forall ops s lo hist,
+  0 <= lo -> nondecr_ops lo ops -> inv p s lo -> acct p s hist -> hist_ok p hist ->
+  hist_ok p (snd (run_hist p s ops hist)).
+Proof.
+  intros Hv HT0. induction ops as [|[el c] t IH]; intros s lo hist Hlo Hnd Hinv Hacct Hok; cbn [run_hist snd]; [exact Hok|].
+  destruct Hnd as (Hle & Hc0 & Hnd). assert (Hel : 0 <= el) by lia.
+  pose proof (inv_mono p s lo el Hv Hle Hinv) as Hinv'.
+  destruct (acquire p s el c) as [s' o] eqn:E.
+  pose proof E as E0. rewrite acquire_T0 in E0 by assumption. cbv zeta in E0.
+  destruct (cur_tokens p s (el / pP p) <? pL p) eqn:E1; inversion E0; subst s' o; clear E0.
+  - pose proof (acct_step p s hist el c _ 0 Hv HT0 Hel Hc0 Hinv' Hacct E) as (Hlt & Hacct' & Hinv2).
+    eapply (IH _ el); try eassumption.
+    intros pre k c' post Heq. destruct pre as [|x pre']; cbn [app] in Heq.
+    + inversion Heq; subst. exact Hlt.
+    + inversion Heq; subst. eapply Hok. reflexivity.
+  - apply (IH s el); assumption.
+Qed.
+
+Theorem mqtt_single_limit p ops :
+  valid p -> pT p = 0 -> nondecr_ops 0 ops ->
+  hist_ok p (snd (run_hist p rl0 ops [])).
+Proof.
+  intros Hv HT0 Hnd. pose proof Hv as (HP & HL & HT).
+  apply (run_hist_ok p Hv HT0 ops rl0 0 []); try assumption; try lia.
+  - unfold inv; cbn [cyc tok rl0]; rewrite Z.div_0_l by lia; lia.
+  - unfold acct; cbn [cyc tok rl0 sum_in fold_right]. split; [intros k c []|lia].
+  - intros pre k c post Heq. destruct pre; discriminate.
+Qed.
+
+(** ** Filter level *)
+Lemma handle_unmatched h now lims matches i :
+  existsb (fun b : bool => b) matches = false ->
+  flt_handle_aux h now lims matches i = (h, FPass 0 None).
+Proof.
+  revert matches i. induction lims as [|l lt IH]; intros [|m mt] i Hm; cbn [flt_handle_aux]; try reflexivity.
+  cbn [existsb] in Hm. apply orb_false_iff in Hm as (-> & Hm). apply IH; exact Hm.
+Qed.
+
+Lemma hget_hset_other h k k' v : k <> k' -> hget (hset h k v) k' = hget h k'.
+Proof.
+  intros Hne. induction h as [|[k0 v0] t IH]; cbn [hset hget].
+  - destruct (k' =? k) eqn:E; [lia|reflexivity].
+  - destruct (k =? k0) eqn:E1; cbn [hget].
+    + destruct (k' =? k) eqn:E2; [lia|]. destruct (k' =? k0) eqn:E3; [lia|reflexivity].
+    + destruct (k' =? k0); [reflexivity|exact IH].
+Qed.
+
+(** reload (ideal): every rule of the new spec that equals a rule of the previous
+    generation under an unchanged policy keeps that rule's limiter object; no existing
+    limiter object is modified; the previous generation keeps all its references. *)
+Lemma reload_ideal snew sold now : forall urls h oldl next h' r o n pk,
+  reload_urls ideal snew sold now urls h oldl next = (h', r, o, n, pk) ->
+  (forall x, In x oldl -> x <> None) ->
+  pk = false /\ o = oldl /\ next <= n /\
+  (forall k, k < next -> hget h' k = hget h k) /\
+  List.length r = List.length urls /\
+  (forall j u, nth_error urls j = Some u ->
+     forall i k, find_prev snew sold u (combine (fs_urls sold) oldl) 0 = Some (i, Some k) ->
+     nth_error r j = Some (Some k)).
+Proof.
+  induction urls as [|u t IH]; intros h oldl next h' r o n pk E Hold; cbn [reload_urls] in E.
+  - inversion E; subst. repeat split; try lia; try reflexivity. intros [|j] u0 Hn; discriminate.
+  - destruct (find_prev snew sold u (combine (fs_urls sold) oldl) 0) as [[i [k|]]|] eqn:Ef.
+    + cbn [q_rl_inherit_steals_limiter ideal] in E.
+      destruct (reload_urls ideal snew sold now t h oldl next) as [[[[h1 r1] o1] n1] pk1] eqn:Er.
+      inversion E; subst; clear E.
+      destruct (IH _ _ _ _ _ _ _ _ Er Hold) as (Hpk & Ho & Hn & Hh & Hlen & Hshare).
+      repeat split; try assumption; [cbn [List.length]; lia|].
+      intros [|j] u0 Hnth i0 k0 Hf; cbn [nth_error] in *.
+      * inversion Hnth; subst. rewrite Ef in Hf. inversion Hf; subst. reflexivity.
+      * eapply Hshare; eassumption.
+    + exfalso. (* a None reference in the old generation is impossible for ideal *)
+      clear - Ef Hold. revert Ef. generalize 0%nat.
+      assert (Hc : forall x, In x (combine (fs_urls sold) oldl) -> snd x <> None).
+      { intros [a b] Hin. apply in_combine_r in Hin. cbn. apply Hold; exact Hin. }
+      induction (combine (fs_urls sold) oldl) as [|[pu pl] l IHl]; intros m Ef; cbn [find_prev] in Ef; [discriminate|].
+      destruct (furl_eqb u pu && is_same_policy snew sold (fu_ref u)).
+      * inversion Ef; subst. apply (Hc (pu, None)); [left; reflexivity|reflexivity].
+      * apply (IHl (fun x Hx => Hc x (or_intror Hx)) (S m) Ef).
+    + destruct (reload_urls ideal snew sold now t (hset h next _) oldl (next + 1)) as [[[[h1 r1] o1] n1] pk1] eqn:Er.
+      inversion E; subst; clear E.
+      destruct (IH _ _ _ _ _ _ _ _ Er Hold) as (Hpk & Ho & Hn & Hh & Hlen & Hshare).
+      repeat split; try assumption; try lia; [| cbn [List.length]; lia |].
+      * intros k Hk. rewrite Hh by lia. apply hget_hset_other. lia.
+      * intros [|j] u0 Hnth i0 k0 Hf; cbn [nth_error] in *.
+        -- inversion Hnth; subst. rewrite Ef in Hf. discriminate.
+        -- eapply Hshare; eassumption.
+Qed.
+
+(** ** The two-dimensional MQTT limiter (requests, bytes), timeout 0 *)
+Definition pol2 (P L0 L1 : Z) : mpolicy := {| mT := 0; mP := P; mL := [L0; L1] |}.
+Definition dim (P L : Z) : policy := {| pT := 0; pP := P; pL := L |}.
+
+Lemma macquire2 P L0 L1 c t0 t1 el c0 c1 :
+  0 < P -> 0 < L0 -> 0 < L1 -> 0 <= el ->
+  let cycle := el / P in
+  let k0 := cur_tokens (dim P L0) {| cyc := c; tok := t0 |} cycle in
+  let k1 := cur_tokens (dim P L1) {| cyc := c; tok := t1 |} cycle in
+  macquire (pol2 P L0 L1) {| mcyc := c; mtok := [t0; t1] |} el [c0; c1] =
+    if (k0 <? L0) && (k1 <? L1)
+    then ({| mcyc := cycle; mtok := [k0 + c0; k1 + c1] |}, MPermit 0)
+    else ({| mcyc := c; mtok := [t0; t1] |}, MReject 0).
+Proof.
+  intros HP H0 H1 Hel cycle k0 k1. unfold macquire, pol2.
+  cbn [mL mP mT mtok mcyc List.length Nat.eqb negb zip3 map existsb forallb].
+  destruct (P =? 0) eqn:EP; [lia|].
+  rewrite (Z.quot_0_l P) by lia. rewrite (quot_div el P) by lia. fold cycle.
+  unfold cur_tokens in k0, k1. cbn [cyc tok pL dim] in k0, k1. fold k0. fold k1.
+  rewrite !Z.add_0_l, !Z.mul_1_r, !orb_false_r, !andb_true_r.
+  destruct (L0 <=? k0) eqn:E0; destruct (L1 <=? k1) eqn:E1;
+    destruct (k0 <? L0) eqn:E2; destruct (k1 <? L1) eqn:E3; cbn [orb andb]; try reflexivity; lia.
+Qed.
+
+(** history of admitted packets: (period, bytes) newest first *)
+Fixpoint mrun_hist (P L0 L1 : Z) (c t0 t1 : Z) (ops : list (Z * Z)) (hist : list (Z * Z)) : list (Z * Z) :=
+  match ops with
+  | [] => hist
+  | (el, b) :: t =>
+      match macquire (pol2 P L0 L1) {| mcyc := c; mtok := [t0; t1] |} el [1; b] with
+      | ({| mcyc := c'; mtok := [t0'; t1'] |}, MPermit _) => mrun_hist P L0 L1 c' t0' t1' t ((el / P, b) :: hist)
+      | ({| mcyc := c'; mtok := [t0'; t1'] |}, _) => mrun_hist P L0 L1 c' t0' t1' t hist
+      | _ => hist
+      end
+  end.
+
+(** per admitted packet: fewer than L0 packets and fewer than L1 bytes were admitted before it in its period *)
+Definition hist2_ok (L0 L1 : Z) (hist : list (Z * Z)) : Prop :=
+  forall pre k b post, hist = pre ++ (k, b) :: post ->
+    sum_in k (map (fun '(k', _) => (k', 1)) post) < L0 /\ sum_in k post < L1.
+
+Lemma mrun_hist_ok P L0 L1 : 0 < P -> 0 < L0 -> 0 < L1 -> forall ops c t0 t1 lo hist,
+  0 <= lo -> nondecr_ops lo ops ->
+  inv (dim P L0) {| cyc := c; tok := t0 |} lo -> inv (dim P L1) {| cyc := c; tok := t1 |} lo ->
+  acct (dim P L0) {| cyc := c; tok := t0 |} (map (fun '(k', _) => (k', 1)) hist) ->
+  acct (dim P L1) {| cyc := c; tok := t1 |} hist ->
+  hist2_ok L0 L1 hist ->
+  hist2_ok L0 L1 (mrun_hist P L0 L1 c t0 t1 ops hist).
+Proof.
+  intros HP H0 H1.
+  assert (Hv0 : valid (dim P L0)) by (unfold valid; cbn; lia).
+  assert (Hv1 : valid (dim P L1)) by (unfold valid; cbn; lia).
+  induction ops as [|[el b] t IH]; intros c t0 t1 lo hist Hlo Hnd Hi0 Hi1 Ha0 Ha1 Hok; cbn [mrun_hist]; [exact Hok|].
+  destruct Hnd as (Hle & Hb0 & Hnd). assert (Hel : 0 <= el) by lia.
+  pose proof (inv_mono _ _ lo el Hv0 Hle Hi0) as Hi0'. pose proof (inv_mono _ _ lo el Hv1 Hle Hi1) as Hi1'.
+  rewrite macquire2 by assumption. cbv zeta.
+  set (k0 := cur_tokens (dim P L0) {| cyc := c; tok := t0 |} (el / P)).
+  set (k1 := cur_tokens (dim P L1) {| cyc := c; tok := t1 |} (el / P)).
+  destruct (k0 <? L0) eqn:E0; destruct (k1 <? L1) eqn:E1; cbn [andb];
+    try (apply (IH c t0 t1 el); assumption).
+  assert (A0 : acquire (dim P L0) {| cyc := c; tok := t0 |} el 1 = ({| cyc := el / P; tok := k0 + 1 |}, Permit 0)).
+  { rewrite acquire_T0 by (try assumption; reflexivity). cbv zeta. cbn [pP pL dim]. fold k0. rewrite E0. reflexivity. }
+  assert (A1 : acquire (dim P L1) {| cyc := c; tok := t1 |} el b = ({| cyc := el / P; tok := k1 + b |}, Permit 0)).
+  { rewrite acquire_T0 by (try assumption; reflexivity). cbv zeta. cbn [pP pL dim]. fold k1. rewrite E1. reflexivity. }
+  pose proof (acct_step _ _ _ el 1 _ 0 Hv0 eq_refl Hel ltac:(lia) Hi0' Ha0 A0) as (Hlt0 & Ha0' & Hi0'').
+  pose proof (acct_step _ _ _ el b _ 0 Hv1 eq_refl Hel Hb0 Hi1' Ha1 A1) as (Hlt1 & Ha1' & Hi1'').
+  cbn [pP pL dim] in *.
+  apply (IH (el / P) (k0 + 1) (k1 + b) el); try assumption.
+  intros pre k b' post Heq. destruct pre as [|x pre']; cbn [app] in Heq.
+  - inversion Heq; subst. split; assumption.
+  - inversion Heq; subst. eapply Hok. reflexivity.
+Qed.
+
+Theorem mqtt_multi_limit P L0 L1 ops :
+  0 < P -> 0 < L0 -> 0 < L1 -> nondecr_ops 0 ops ->
+  hist2_ok L0 L1 (mrun_hist P L0 L1 0 0 0 ops []).
+Proof.
+  intros HP H0 H1 Hnd.
+  apply (mrun_hist_ok P L0 L1 HP H0 H1 ops 0 0 0 0 []); try assumption; try lia.
+  - unfold inv; cbn [cyc tok pP dim]; rewrite Z.div_0_l by lia; lia.
+  - unfold inv; cbn [cyc tok pP dim]; rewrite Z.div_0_l by lia; lia.
+  - unfold acct; cbn [cyc tok map sum_in fold_right]. split; [intros k c []|lia].
+  - unfold acct; cbn [cyc tok sum_in fold_right]. split; [intros k c []|lia].
+  - intros pre k c post Heq. destruct pre; discriminate.
+Qed.
